@@ -29,7 +29,33 @@ type BuiltinFnHover struct {
 
 func (*BuiltinFnHover) hover() {}
 
+func hoverRange(hover Hover) (parser.Range, bool) {
+	switch hover := hover.(type) {
+	case *VariableHover:
+		return hover.Range, true
+	case *BuiltinFnHover:
+		return hover.Range, true
+	}
+	return parser.Range{}, false
+}
+
+// A position at the very end of a token still belongs to it, unless another
+// token starts right there (e.g. `$a$b`): then it belongs to the token it starts.
 func HoverOn(program parser.Program, position parser.Position) Hover {
+	hover := hoverOn(program, position)
+
+	if rng, ok := hoverRange(hover); ok && rng.End == position {
+		next := parser.Position{Line: position.Line, Character: position.Character + 1}
+		nextHover := hoverOn(program, next)
+		if nextRng, ok := hoverRange(nextHover); ok && nextRng.Start == position {
+			return nextHover
+		}
+	}
+
+	return hover
+}
+
+func hoverOn(program parser.Program, position parser.Position) Hover {
 	for _, varDecl := range program.Vars {
 		hover := hoverOnVar(varDecl, position)
 		if hover != nil {
